@@ -193,6 +193,23 @@ struct EsoGrant {
     fee: Decimal,
 }
 
+/// a price as printed: thousands separators in the integer part, decimals as they are
+fn price_commas(d: Decimal) -> String {
+    let s = d.to_string();
+    let (i, f) = match s.split_once('.') {
+        Some((i, f)) => (i.to_string(), format!(".{}", f)),
+        None => (s.clone(), ".00".to_string()),
+    };
+    let mut out = String::new();
+    for (k, c) in i.chars().enumerate() {
+        if k > 0 && (i.len() - k) % 3 == 0 {
+            out.push(',');
+        }
+        out.push(c);
+    }
+    format!("{}{}", out, f)
+}
+
 fn money_commas(d: Decimal) -> String {
     let s = format!("{:.2}", d);
     let (i, f) = s.split_once('.').unwrap();
@@ -241,7 +258,7 @@ fn pre_trade_text(r: &mut Rng, trades: &[GTrade]) -> String {
             g.sec,
             if g.sell { "SELL" } else { "BUY" },
             g.shares,
-            g.price,
+            if g.price >= Decimal::new(1000, 0) { price_commas(g.price) } else { g.price.to_string() },
             money_commas(principal)
         )
         .unwrap();
@@ -269,7 +286,8 @@ fn post_trade_text(r: &mut Rng, g: &GTrade) -> String {
     let key = "Settlement Amount\n";
     let i = t.find(key).expect("post-2023 template: header") + key.len();
     let j = i + t[i..].find('\n').unwrap();
-    let mut s = format!("{}{} {} {} {}{}", &t[..i], slash_date(g.trade), slash_date(g.settle), g.shares, g.price, &t[j..]);
+    let price_txt = if g.price >= Decimal::new(1000, 0) { price_commas(g.price) } else { g.price.to_string() };
+    let mut s = format!("{}{} {} {} {}{}", &t[..i], slash_date(g.trade), slash_date(g.settle), g.shares, price_txt, &t[j..]);
     s = s.replace("Transaction Type: Sold", if g.sell { "Transaction Type: Sold" } else { "Transaction Type: Bought" });
     s = s.replace("ISIN: FOO /", &format!("ISIN: {} /", g.sec));
     match g.commission {
@@ -336,7 +354,9 @@ pub fn gen_case(r: &mut Rng) -> Case {
         let sec = if two_secs && r.chance(40) { secs[1] } else { secs[0] }.to_string();
         let acq = base + Duration::days(day);
         day += if close { r.range(0, 4) } else { r.range(7, 40) };
-        let px = r.range(20, 400);
+        // now and then a four-figure share price, printed with a thousands separator as the
+        // confirmations do for every other amount
+        let px = if r.chance(12) { r.range(1000, 4000) } else { r.range(20, 400) };
         let kind = match r.below(10) {
             0..=5 => "rsu",
             6..=7 => "espp",
